@@ -336,6 +336,49 @@ def main(tier, seed):
                               found_input=False)
             else:
                 res.violations += 1
+    # ---- BINARY tokens (sdaiBinary.cc ReadBinary / STEPwrite): oracle only (no Coq model of this reader)
+    DQ = '"'
+    balpha = [DQ, "0", "3", "4", "A", "a", "G", " "]
+    bbodies = []
+    for n in range(0, (5 if tier == "quick" else 7)):
+        for tup in itertools.product(balpha, repeat=n):
+            bbodies.append("".join(tup))
+    bbodies += [DQ + "0" + DQ, DQ + "1F" + DQ, DQ + "23A" + DQ, DQ + "3" + "F" * 300 + DQ, DQ + DQ, DQ + "0", "0" + DQ, DQ + "0G" + DQ, "$", "'0'", DQ + "0" + DQ + DQ]
+    bdatas = [b + suf for b in bbodies for suf in (",", ")", " ,1", "")]
+    reqs = ["Y %s" % hexs(d) for d in bdatas]
+    rc_i, io = run(exe, reqs)
+    if rc_i != 0:
+        res.violation("h_lex crashed (rc=%d) on the Y stream" % rc_i, {"kind": "Y", "rc": rc_i}, found_input=False)
+    WFB = re.compile(r'^"([0-3][0-9A-F]*)"')
+    for k, d in enumerate(bdatas):
+        total += 1
+        if k >= len(io) or not io[k].strip():
+            break
+        p_ = io[k].split()
+        if len(p_) < 8:
+            continue
+        assigned, val, sev, remaining, written = int(p_[1]), p_[2], int(p_[3]), int(p_[4]), p_[7]
+        kinds_hist["Y"] = kinds_hist.get("Y", 0) + 1
+        sev_hist[sev] = sev_hist.get(sev, 0) + 1
+        body = d.lstrip(" \t\n")
+        msg = None
+        m = WFB.match(body)
+        if m and not body[m.end():m.end() + 1] in (DQ,) and (body[m.end():].lstrip(" ")[:1] in (",", ")", "")):
+            lit = m.group(0)
+            nontrivial.add(("Y", d))
+            if not (assigned == 1 and val == m.group(1) and sev == 3 and remaining == len(body) - len(lit)):
+                msg = "well-formed binary %s is not read to its value: stored %s, severity %d, %d bytes left (expected %d)" % (lit, val, sev, remaining, len(body) - len(lit))
+            elif written != lit:
+                msg = "binary %s is written back as %s" % (lit, written)
+        else:
+            # anything read without an error must have been spelled: both quotes, hexadecimal digits between them, the value those digits
+            if sev >= 3 and assigned == 1:
+                mm = re.match(r'^"([0-9A-Fa-f]+)"', body)
+                if not mm or mm.group(1) != val:
+                    msg = "token %r is read to the binary %s without an error although it does not spell it" % (d, val)
+        if msg:
+            oracle_fail += 1
+            res.violation("BINARY: %s" % msg, {"kind": "Y", "input": d, "input_hex": hexs(d), "impl": io[k], "replay": "echo 'Y %s' | %s" % (hexs(d), exe)})
     # writer
     r = rng(seed, "c09w")
     wv = writer_cases(r, tier)
